@@ -33,6 +33,13 @@ func init() {
 }
 
 func c02Rules(tier string) []Rule {
+	rules := c02RulesBase(tier)
+	// a pod update always refreshes the anti-affinity index, also when the node usage update fails (node not tracked yet)
+	rules = append(rules, POST{ID: "C02.AAIDX1", Fn: "(*state.Cluster).UpdatePod", From: "", Must: []string{`^call \(\*state\.Cluster\)\.updatePodAntiAffinities\(\$0, \$2\)$`}, Note: "every path through UpdatePod updates the anti-affinity index"})
+	return rules
+}
+
+func c02RulesBase(tier string) []Rule {
 	const (
 		tp    = "(*sched.Topology)."
 		tg    = "(*sched.TopologyGroup)."
@@ -133,6 +140,11 @@ func c02Rules(tier string) []Rule {
 			return rs
 		}},
 
+		// groups are memoised by hash in two maps (own and inverse): a miss in one map inserts into that same map
+		core.Custom{ID: "C02.PROV7", Kind: "PROV", Run: func(w *core.World, id string) []core.Result {
+			rs := core.LookupInsertSameMap(w, id, "PROV", tp+"updateInverseAntiAffinity", 1, "inverse anti-affinity groups are looked up and registered in inverseTopologyGroups")
+			return append(rs, core.LookupInsertSameMap(w, id, "PROV", tp+"Update", 1, "a pod's own groups are looked up and registered in topologyGroups")...)
+		}},
 		// ---- (5) anti-affinity / affinity
 		DOM{ID: "C02.DOM4", Fn: tg + "nextDomainAntiAffinity", Sink: ins, Min: 3, Gates: gates(
 			G(`+^\$0\.domains\[\(\*scheduling\.Requirement\)\.Values\(\$2\)\[0\]\] == 0$`, `+^\(apim/util/sets\.Set\[string\]\)\.Has\(\$0\.emptyDomains, \(\*scheduling\.Requirement\)\.Values\(\$2\)\[.*\]\)$`, `+^next\(range\(\$0\.emptyDomains\)\)#0$`),
